@@ -1482,7 +1482,7 @@ def ghost_calls(crate, b):
         g = sub.ghost_blocks()[0]
         for c in sub.calls:
             if c.bb in g and c.callee and c.callee.name and c.callee.name not in _GHOST_IGNORE:
-                out.add(c.callee.name)
+                out.add({"is_superset": "is_subset"}.get(c.callee.name, c.callee.name))      # (a ⊇ b is b ⊆ a)
     return out
 
 
@@ -1542,6 +1542,25 @@ def ghost_census(ctx, crate):
             for k2, v in ref.items():
                 if k2.rsplit("::", 1)[1] == (aliases.get(b.id) or b.name):
                     want |= set(v)
+        # assertion code travels with the code around it: extracting a block into a helper moves it to a callee, folding a helper
+        # back moves it to the caller — what the direct callers and callees of this function asserted in the reviewed tree is
+        # reviewed here as well
+        near = set()
+        for c in b.all_calls():
+            if c.callee and c.callee.target in crate.bodies:
+                near.add(aliases.get(c.callee.target) or crate.bodies[c.callee.target].name)
+        for b2 in crate.fns():
+            if b2.name and any(c.callee and c.callee.target == b.id for c in b2.all_calls()):
+                near.add(aliases.get(b2.id) or b2.name)
+        for k2, v in ref.items():
+            if k2.rsplit("::", 1)[1] in near:
+                want |= set(v)
+        # ... and a function of the reviewed tree that no longer exists was folded into its callers: what it asserted may now
+        # be asserted by any function of its file
+        for k2, v in ref.items():
+            f2, n2 = k2.rsplit("::", 1)
+            if f2 == b.file and n2 not in by_name and n2 not in set(aliases.values()):
+                want |= set(v)
         # a helper the ghost code was split into keeps the names of what it calls; calls of functions that did not exist in the
         # reviewed tree are looked through one level
         known_fns = {kk.rsplit("::", 1)[1] for kk in ref} | all_ref
